@@ -95,11 +95,47 @@ func GenDouble() *rapid.Generator[float64] {
 	return rapid.OneOf(
 		rapid.SampledFrom(special),
 		rapid.SampledFrom(special),
+		genDecimalBoundary(),
 		rapid.Map(rapid.IntRange(-20, 20), func(i int) float64 { return float64(i) }),
 		rapid.Map(rapid.IntRange(-2000, 2000), func(i int) float64 { return float64(i) / 8 }),
 		rapid.Map(rapid.Uint64(), func(u uint64) float64 { return math.Float64frombits(u) }),
 		rapid.Float64(),
 	)
+}
+
+// genDecimalBoundary - values at and next to powers of ten and at the rounding boundaries of
+// a fixed number of significant digits: where a rendering switches between plain and
+// exponent notation, gains a digit, or rounds up into the next power
+func genDecimalBoundary() *rapid.Generator[float64] {
+	return rapid.Custom(func(t *rapid.T) float64 {
+		k := rapid.IntRange(-9, 23).Draw(t, "pow")
+		p := math.Pow(10, float64(k))
+		var f float64
+		switch rapid.IntRange(0, 9).Draw(t, "near") {
+		case 0, 1:
+			f = p
+		case 2:
+			f = p - 1
+		case 3:
+			f = p + 1
+		case 4:
+			f = math.Nextafter(p, 0)
+		case 5:
+			f = math.Nextafter(p, math.Inf(1))
+		case 6:
+			f = p * rapid.SampledFrom([]float64{0.9999995, 0.99999949, 0.999999, 0.9999999, 1.0000005, 1.000001, 0.5, 5, 0.15, 0.25, 0.35, 2.5, 1.5}).Draw(t, "mul")
+		case 7:
+			f = p + 0.5
+		case 8:
+			f = p * float64(rapid.IntRange(1, 9).Draw(t, "digit"))
+		default:
+			f = p / 100 // the value whose percentage is a power of ten
+		}
+		if rapid.IntRange(0, 3).Draw(t, "neg") == 0 {
+			f = -f
+		}
+		return f
+	})
 }
 
 // GenFiniteDouble - doubles that have a literal spelling
